@@ -1401,11 +1401,16 @@ def e_Starred(self, st, node):
 
 
 def e_Yield(self, st, node):
-    if not getattr(self, "eager_generators", False):
+    handlers = getattr(self, "_yield_handlers", None)
+    handler = handlers[-1] if handlers else None
+    if handler is None and not getattr(self, "eager_generators", False):
         raise U(self)("yield at %s" % self.loc(node))
     res = []
     outs = self.eval(st, node.value) if node.value is not None else [(st, "val", None)]
     for (s, k, v) in outs:
+        if k == "val" and handler is not None:
+            res.extend(handler(s, v))       # the consumer's loop body runs here (sa.absint.loop_generator)
+            continue
         if k == "val":
             s.frames[-1]["@yield"] = tuple(s.frames[-1].get("@yield", ())) + (v,)
             res.append((s, "val", None))
